@@ -304,12 +304,12 @@ func build(v vcase, u *universe, seed int64, signed bool) built {
 	if s.Era == EraShelley {
 		rec.TTL = U64(1 << 40)
 	}
-	o1 := Out{Addr: EnterpriseAddr(u.pay), Coin: u1Coin}
+	uo1 := Out{Addr: EnterpriseAddr(u.pay), Coin: u1Coin}
 	if s.Tok1 && s.Era >= EraMary {
-		o1.Assets = []Asset{{polP1, []byte("A"), 2}}
+		uo1.Assets = []Asset{{polP1, []byte("A"), 2}}
 		b.inAssets[aid{polP1, "A"}] += 2
 	}
-	if err := ls.AddUtxo(s.Era, in1, o1); err != nil {
+	if err := ls.AddUtxo(s.Era, in1, uo1); err != nil {
 		panic(err)
 	}
 	b.inCoins = append(b.inCoins, u1Coin)
@@ -642,6 +642,10 @@ func main() {
 		attr             []RuleResult
 		coinOK, assetsOK bool
 		detail           string
+		mutated          bool   // the state dump differs after validation
+		reeval           string // non-empty: repeated evaluations on the same state give different verdicts
+		dumpBefore       string
+		dumpAfter        string
 	}
 	res := make([]result, len(cases))
 	vlib.Parallel(len(cases), func(i int) {
@@ -750,7 +754,7 @@ func main() {
 		if r.mutated || r.reeval != "" {
 			replay["state_before"], replay["state_after"], replay["verdicts"] = r.dumpBefore, r.dumpAfter, r.reeval
 			twice := "no"
-			if n := len(s.terms()); n >= 0 && (s.TwoIn && s.Tok1 && s.Era >= EraMary || s.TwoIn && mv.qty != 0 && mv.asset == (aid{polP1, "A"}) || s.Tok1 && mv.qty != 0 && mv.asset == (aid{polP1, "A"})) {
+			if s.TwoIn && s.Tok1 && s.Era >= EraMary || s.TwoIn && mv.qty != 0 && mv.asset == (aid{polP1, "A"}) || s.Tok1 && mv.qty != 0 && mv.asset == (aid{polP1, "A"}) {
 				twice = "yes"
 			}
 			c.Eval("purity|"+en+"|same-asset-twice-on-consumed-side="+twice, fmt.Sprintf("state-mutated=%v/verdict-changes=%v", r.mutated, r.reeval != ""))
